@@ -371,9 +371,10 @@ impl<'de, 'a> Visitor<'de> for MapVisitor<'a> {
         f.write_str("a map")
     }
     fn visit_map<A: MapAccess<'de>>(self, mut map: A) -> Result<DynVal, A::Error> {
+        // std's BTreeMap / HashMap impls read whole entries (MapAccess::next_entry); derived structs read key then
+        // value (see fields_from_map) - both access styles are exercised
         let mut out = vec![];
-        while let Some(k) = map.next_key_seed(self.0)? {
-            let v = map.next_value_seed(self.1)?;
+        while let Some((k, v)) = map.next_entry_seed(self.0, self.1)? {
             out.push((k, v));
         }
         Ok(DynVal::Map(out))
